@@ -70,3 +70,9 @@ Theorem c12_read_returns_last_solve (dataset coefs tensor : Type) (fit : dataset
   = option_map (fun d => expand compact (fit d)) (last_solve dataset h None).
 Proof. exact (read_returns_last_solve dataset coefs tensor fit expand h compact). Qed.
 Print Assumptions c12_read_returns_last_solve.
+
+(** The remaining source this property rests on is the recorded one (the six solver modules and solver_funcs; the basis-set classes of orders 2-4; the Symfc facade): whole-function match,
+    regenerated on every run (closes the gap between "the expected statements are present" and "nothing else was added"). *)
+From SymfcG Require Import ShapesSolvers ShapesBasis ShapesApi.
+Theorem c12_recorded_sources2_in_force : ShapesSolvers_as_recorded = true /\ ShapesBasis_as_recorded = true /\ ShapesApi_as_recorded = true.
+Proof. repeat split; reflexivity. Qed.
